@@ -109,6 +109,56 @@ func (o Op) SplitReuse() []Op {
 	return []Op{a, b}
 }
 
+// SplitNames turns one call that names several attributes / properties / elements / schemes into
+// the calls for each single name (the cartesian product for chains): the same set of rules.
+func (o Op) SplitNames() []Op {
+	if o.Scope2 != "" {
+		return nil // handled by SplitReuse first
+	}
+	var out []Op
+	switch o.K {
+	case "AllowElements", "SkipElementsContent", "AllowElementsContent", "AllowURLSchemes":
+		if len(o.Names) < 2 {
+			return nil
+		}
+		for _, n := range o.Names {
+			c := o
+			c.Names = []string{n}
+			out = append(out, c)
+		}
+	case "AllowAttrs", "AllowStyles":
+		els := o.Els
+		if o.Scope != "els" || len(els) == 0 {
+			els = []string{""}
+		}
+		if len(o.Names) < 2 && len(els) < 2 {
+			return nil
+		}
+		for _, n := range o.Names {
+			for _, e := range els {
+				c := o
+				c.Names = []string{n}
+				if e != "" {
+					c.Els = []string{e}
+				}
+				out = append(out, c)
+			}
+		}
+	case "AllowNoAttrs":
+		if o.Scope != "els" || len(o.Els) < 2 {
+			return nil
+		}
+		for _, e := range o.Els {
+			c := o
+			c.Els = []string{e}
+			out = append(out, c)
+		}
+	default:
+		return nil
+	}
+	return out
+}
+
 // cbHook is called at the start of every harness-supplied callback; the C13
 // scheduler makes it a scheduling point.  nil elsewhere.
 var cbHook func(name string)
@@ -184,6 +234,17 @@ func styleHandlerByName(name string) func(string) bool {
 		return func(v string) bool { hook("sh:short"); return len(v) <= 6 }
 	case "noparen":
 		return func(v string) bool { hook("sh:noparen"); return !strings.Contains(v, "(") }
+	}
+	// parametrised handlers: every "maxlen=N" (and every "prefix=P") is the SAME function literal
+	// with a different captured value, as a handler factory in user code would produce
+	if strings.HasPrefix(name, "maxlen=") {
+		n := 0
+		fmt.Sscan(strings.TrimPrefix(name, "maxlen="), &n)
+		return func(v string) bool { hook("sh:maxlen"); return len(v) <= n }
+	}
+	if strings.HasPrefix(name, "prefix=") {
+		pre := strings.TrimPrefix(name, "prefix=")
+		return func(v string) bool { hook("sh:prefix"); return strings.HasPrefix(v, pre) }
 	}
 	panic("harness: unknown style handler " + name)
 }
